@@ -4,6 +4,7 @@ import (
 	"bytes"
 	"fmt"
 	"runtime"
+	"sync"
 	"strings"
 
 	"verif/sim/model"
@@ -55,8 +56,13 @@ func (p *C12) Generate(seed uint64, run int) *Case {
 		b = p.w.GenInfo(r)
 	}
 	c := &Case{Property: "C12", Kind: "family", Seed: seed, Run: run}
+	if run%1300 == 7 {
+		// an input just above a round size (1 MiB, 4 MiB), most of it comments
+		b = padInput(r, b, p.w, []int{4 << 20, 1 << 20}[(run/1300)%2])
+		c.Labels = append(c.Labels, "input:above-round-size")
+	}
 	// byte-level shapes an input path might treat differently from another
-	if b.Input != nil {
+	if _, padded := c.HasLabel("input:above-round-size"); b.Input != nil && !padded {
 		switch r.Intn(40) {
 		case 5, 6:
 			// nothing at all on the input (stdin may be /dev/null, FILE an empty file)
@@ -87,6 +93,29 @@ func (p *C12) Generate(seed uint64, run int) *Case {
 	if b.Class != "gen" && b.Class != "text" && r.Chance(1, 4) {
 		p.w.WithDict(r, &b)
 		c.Labels = append(c.Labels, "user-dictionary")
+	}
+	if _, heavy := c.HasLabel("input:above-round-size"); heavy {
+		// a reduced family: only the input paths (every process has to read
+		// megabytes rune by rune; --debug would log every rune)
+		base := b.StepOf(r.U64())
+		base.Note = "base"
+		c.Steps = append(c.Steps, base)
+		for _, note := range []string{"inpath:dash", "inpath:file", "inpath:fifo", "delivery"} {
+			st := b.StepOf(r.U64())
+			st.Note = note
+			switch note {
+			case "inpath:dash":
+				st.Argv = append(st.Argv, "-")
+			case "delivery":
+				st.Stdin.Plan = simrt.Plan{Chunks: []int{65536, 4096, 1 << 20}, EOFWithData: true}
+			default:
+				st.Argv = append(st.Argv, inPath)
+				st.Files = map[string]*simrt.FileSpec{inPath: {Data: st.Stdin.Data, Plan: simrt.Plan{Chunks: []int{1 << 16}}, Pipe: note == "inpath:fifo"}}
+				st.Stdin = nil
+			}
+			c.Steps = append(c.Steps, st)
+		}
+		return c
 	}
 	cpus := model.Pick(r, []int{2, 4, 8, 16})
 	base := b.StepOf(r.U64())
@@ -143,6 +172,17 @@ func (p *C12) Generate(seed uint64, run int) *Case {
 			st.Stdin = nil
 		})
 	}
+	if b.Input != nil && r.Chance(1, 4) {
+		// the result is written over the very file the input comes from
+		add("outpath:onto-input", func(st *Step) {
+			st.Argv = append(st.Argv, inPath, "-o", inPath)
+			if st.Files == nil {
+				st.Files = map[string]*simrt.FileSpec{}
+			}
+			st.Files[inPath] = &simrt.FileSpec{Data: st.Stdin.Data, Plan: GenPlan(r)}
+			st.Stdin = nil
+		})
+	}
 	if b.Input != nil && r.Chance(1, 3) {
 		// FILE is a named pipe / process substitution: size 0, bytes arrive in pieces
 		add("inpath:fifo", func(st *Step) {
@@ -181,6 +221,45 @@ func (p *C12) Generate(seed uint64, run int) *Case {
 	add("plain", func(st *Step) { st.Plain = true })
 	add("plain", func(st *Step) { st.Plain = true })
 	return c
+}
+
+// padInput returns a command whose input is just above size bytes long, the
+// bulk being comments (cheap to read, no output).
+func padInput(r *model.Rand, b Base, w Workload, size int) Base {
+	// a small input every version of the command accepts, so that the paths
+	// can differ only in how they treat the size
+	if r.Chance(1, 2) {
+		b = Base{Argv: []string{"text", "conv", "syllable", "--key", "G"}, Input: []byte("G[1] D_7/F#[1,1/2]{txt=hi} Em[2] R[1]\nC[2]{key=C}"), InputArg: true, Class: "text"}
+	} else {
+		b = Base{Argv: []string{"write", model.Pick(r, []string{"parse", "event"})}, Input: []byte(goodInst + "- values:\n    - \"2\"\n" + goodInst), InputArg: true, Class: "doc", Tracks: 1}
+	}
+	extra := size + 1 + r.Intn(4096) - len(b.Input)
+	if extra <= 0 {
+		return b
+	}
+	line := "; padding comment line, nothing to see here ......................................\n"
+	if b.Class == "doc" {
+		line = "# padding comment line, nothing to see here .......................................\n"
+	}
+	pad := strings.Repeat(line, extra/len(line)+1)
+	cut := len(b.Input) / 2
+	if b.Class == "doc" {
+		// between two instances
+		if i := bytes.Index(b.Input[cut:], []byte("\n- ")); i >= 0 {
+			cut += i + 1
+		} else {
+			cut = len(b.Input)
+		}
+	} else {
+		// between two items (after white space outside metadata is hard to find cheaply: append)
+		cut = len(b.Input)
+		pad = "\n" + pad
+	}
+	in := append([]byte{}, b.Input[:cut]...)
+	in = append(in, pad...)
+	in = append(in, b.Input[cut:]...)
+	b.Input = in
+	return b
 }
 
 // breakInput makes an input the command will refuse (not by truncation
@@ -222,18 +301,11 @@ func withExistingOutput(r *model.Rand, st *Step) {
 	st.Files[outPath] = &simrt.FileSpec{Data: old}
 }
 
-func isOutVariant(st *Step) bool {
-	for i, a := range st.Argv {
-		if a == "-o" && i+1 < len(st.Argv) && st.Argv[i+1] == outPath {
-			return true
-		}
-	}
-	return false
-}
+func isOutVariant(st *Step) bool { return outArg(st.Argv) != "" }
 
 func resultBytes(st *Step, r *Result) []byte {
-	if isOutVariant(st) {
-		return r.Created[outPath]
+	if o := outArg(st.Argv); o != "" {
+		return r.Created[o]
 	}
 	return r.Stdout
 }
@@ -252,12 +324,31 @@ func dimOf(note string) string {
 
 func (p *C12) Evaluate(env *Env, c *Case) (*Outcome, error) {
 	out := &Outcome{Results: make([]*Result, len(c.Steps))}
-	for i := range c.Steps {
-		r, err := env.Exec(&c.Steps[i])
-		if err != nil {
-			return nil, err
+	if _, heavy := c.HasLabel("input:above-round-size"); heavy {
+		// the few processes of a megabyte-sized family run side by side
+		var wg sync.WaitGroup
+		errs := make([]error, len(c.Steps))
+		for i := range c.Steps {
+			wg.Add(1)
+			go func() {
+				defer wg.Done()
+				out.Results[i], errs[i] = env.Exec(&c.Steps[i])
+			}()
 		}
-		out.Results[i] = r
+		wg.Wait()
+		for _, err := range errs {
+			if err != nil {
+				return nil, err
+			}
+		}
+	} else {
+		for i := range c.Steps {
+			r, err := env.Exec(&c.Steps[i])
+			if err != nil {
+				return nil, err
+			}
+			out.Results[i] = r
+		}
 	}
 	base := out.Results[0]
 	cmd := CommandOf(c.Steps[0].Argv)
